@@ -30,13 +30,9 @@
  *   gr-dup-image            after reopen the file lists more than the one image that was created
  *   gr-native-alias:<what>  DFNT_NATIVE image: number type reported as something else than native/its little-endian alias
  *                           after reopen, or GRendaccess/Hclose failing because of it
- *   gr-comp:session[-rejected] / gr-comp:rewrite[-rejected]
- *                           compressed (non-chunked) image, oracle-only probe cases: read or second write in the session
- *                           that created the data / partial rewrite of a compressed image loaded from the file;
- *   gr-comp:close           GRend/Hclose failing at the end of such a probe session (an access id is left open)
  *
- * Compressed images are tied (T lines) only on the supported path: one first write (whole, or partial with fill),
- * close, then any reads; 25% of the compressed cases are probes without write/read T lines (keys gr-comp:*).
+ * Compressed (non-chunked) images are tied like all others since the gr-comp repairs (buffered whole-element rewrite): reads
+ * and further partial writes in the session that created the data, partial rewrites after reopen, GRendaccess+GRselect between.
  */
 #ifdef GR_MUT_SRC /* mutation sanity: a mutated private copy of mfgr.c replaces the library object */
 #include GR_MUT_SRC
@@ -62,13 +58,11 @@ static int32 fid = FAIL, grid = FAIL, riid = FAIL;
 static char fname[800];
 static int plain, chunked, compressed;
 static int any_write;
-static int notie;   /* compressed probe case: writes/reads are judged by the oracle only, no T lines */
-static int flushed; /* the file was closed since the first write */
 static int native_case;
 static int poisoned; /* a GRendaccess of a DFNT_NATIVE image failed (gr-native-alias): its AID leaked, later results are its aftermath */
 
-static const char *datakey(const char *dflt) { return poisoned ? "gr-native-alias:aftermath" : notie ? (flushed ? "gr-comp:rewrite" : "gr-comp:session") : dflt; }
-static const char *rejkey(const char *dflt) { return poisoned ? "gr-native-alias:aftermath" : notie ? (flushed ? "gr-comp:rewrite-rejected" : "gr-comp:session-rejected") : dflt; }
+static const char *datakey(const char *dflt) { return poisoned ? "gr-native-alias:aftermath" : dflt; }
+static const char *rejkey(const char *dflt) { return poisoned ? "gr-native-alias:aftermath" : dflt; }
 
 /* textbook element index of component (x,y,c) in a w x h x nc buffer with interlace il */
 static size_t addr(int il, int w, int h, int nc, int x, int y, int c)
@@ -101,9 +95,8 @@ static void do_open(int create)
 static void do_close(void)
 {
     if (riid != FAIL && GRendaccess(riid) == FAIL) { hk_fail(native_case ? "gr-native-alias:GRendaccess" : "gr-api:GRendaccess", "%s", errtxt()); if (native_case) poisoned = 1; }
-    if (grid != FAIL && GRend(grid) == FAIL) hk_fail(notie ? "gr-comp:close" : "gr-api:GRend", "%s", errtxt());
-    if (fid != FAIL && Hclose(fid) == FAIL) hk_fail(poisoned ? "gr-native-alias:Hclose" : notie ? "gr-comp:close" : "gr-api:Hclose", "%s", errtxt());
-    if (any_write) flushed = 1;
+    if (grid != FAIL && GRend(grid) == FAIL) hk_fail("gr-api:GRend", "%s", errtxt());
+    if (fid != FAIL && Hclose(fid) == FAIL) hk_fail(poisoned ? "gr-native-alias:Hclose" : "gr-api:Hclose", "%s", errtxt());
     riid = grid = fid = FAIL;
 }
 
@@ -182,7 +175,7 @@ static void op_write(int bad, int force_partial)
     for (size_t i = 0; i < n; i++) buf[i] = pat == 0 ? hk_byte() : pat == 1 ? (uint8_t)(0x10 + i) : (uint8_t)(0xC0 + i / ESZ);
     int use_null_stride = (t[0] == 1 && t[1] == 1 && hk_chance(30));
     intn rc = GRwriteimage(riid, s, use_null_stride ? NULL : t, c, buf);
-    if (!notie && !poisoned) {
+    if (!poisoned) {
         printf("T gr write %d %d %d %d %d %d ", (int)s[0], (int)s[1], (int)t[0], (int)t[1], (int)c[0], (int)c[1]);
         if (valid) hk_hex(buf, n); else printf("-");
         printf(" => %s\n", rc == FAIL ? "fail" : "ok");
@@ -214,9 +207,9 @@ static void op_read(int bad, int whole, const char *key)
     size_t n = (size_t)cx * cy * PSZ;
     uint8_t *buf = malloc(n), *keep = malloc(n);
     memset(buf, 0x77, n); memcpy(keep, buf, n);
-    if (notie || poisoned) { printf("X gr read %d %d %d %d %d %d\n", (int)s[0], (int)s[1], (int)t[0], (int)t[1], (int)c[0], (int)c[1]); fflush(stdout); } /* not replayed */
+    if (poisoned) { printf("X gr read %d %d %d %d %d %d\n", (int)s[0], (int)s[1], (int)t[0], (int)t[1], (int)c[0], (int)c[1]); fflush(stdout); } /* not replayed */
     intn rc = GRreadimage(riid, s, (t[0] == 1 && t[1] == 1 && hk_chance(30)) ? NULL : t, c, buf);
-    if (!notie && !poisoned) {
+    if (!poisoned) {
         printf("T gr read %d %d %d %d %d %d => ", (int)s[0], (int)s[1], (int)t[0], (int)t[1], (int)c[0], (int)c[1]);
         if (rc == FAIL) printf("fail\n"); else { hk_hex(buf, n); printf("\n"); }
     }
@@ -359,17 +352,16 @@ static void run_case(int k)
     PSZ = NC * ESZ;
     IL = (int)hk_range(0, 2);
     IMIL = MFGR_INTERLACE_PIXEL; LUTIL = MFGR_INTERLACE_PIXEL;
-    have_lut = 0; any_write = 0; flushed = 0; poisoned = 0;
+    have_lut = 0; any_write = 0; poisoned = 0;
     native_case = (NT & DFNT_NATIVE) != 0;
     int mode = (int)hk_range(0, 99);
     plain = mode < 45; compressed = mode >= 45 && mode < 75; chunked = mode >= 75;
-    notie = compressed && hk_chance(25);
     snprintf(fname, sizeof fname, "%s", hk_tmp("gr"));
     snprintf(fname + strlen(fname), sizeof fname - strlen(fname), "_%d.hdf", k);
     memset(shadow, 0, sizeof shadow);
     memset(fillpix, 0, sizeof fillpix);
 
-    printf("INFO mode=%s%s %dx%dx%d nt=%d il=%d\n", plain ? "plain" : compressed ? "comp" : "chunk", notie ? "-probe" : "", W, H, NC, (int)NT, IL);
+    printf("INFO mode=%s%s %dx%dx%d nt=%d il=%d\n", plain ? "plain" : compressed ? "comp" : "chunk", "", W, H, NC, (int)NT, IL);
     do_open(1);
     if (grid == FAIL) { do_close(); return; }
     int32 dims[2] = {W, H};
@@ -435,12 +427,10 @@ static void run_case(int k)
             op_write(0, first_partial);
             if (any_write) {
                 hk_stat("first_write", 1);
-                if (compressed && !notie) { op_reopen(); if (riid == FAIL) break; } /* supported path: write once, close */
                 op_read(0, 1, "gr-first-write-fill");
                 if (plain && hk_chance(70)) op_raw();
             }
         }
-        else if (r < 30 && compressed && !notie && any_write) op_read(0, hk_chance(30), "gr-read-data"); /* no rewrite of compressed data on the tied path */
         else if (r < 30) op_write(hk_chance(12), 0);
         else if (r < 62) op_read(hk_chance(12), hk_chance(15), "gr-read-data");
         else if (r < 72) {
@@ -476,7 +466,6 @@ static void run_case(int k)
     if (!getenv("HK_KEEP")) unlink(fname);
     hk_stat(with_fill ? "fill_set" : "fill_unset", 1);
     hk_stat("pixels", (long)W * H);
-    if (notie) hk_stat("comp_probe", 1);
     if (k < 2) printf("SAMPLE gr %dx%d ncomp=%d nt=%d il=%d mode=%s fill=%d\n", W, H, NC, (int)NT, IL, plain ? "plain" : compressed ? "comp" : "chunk", with_fill);
 }
 
